@@ -238,9 +238,8 @@ def run(ctx):
     t1 = time.time()
     q = ctx.quick
     may_die = {"allow_fail": True}          # a dying recorder is an observation: see crashed_sessions
-    # quick: each history with one value type (alternating) and one placement (rotating): every
-    # (value type, placement) pair occurs with every sixth history; thorough: both value types
-    jobs = [("c08", ["--mode", "gen", "--in", h, "--vt", "alternate" if q else "both"], "gen%d.ndjson" % i, may_die)
+    # every history with both value types; placements rotate with the history index
+    jobs = [("c08", ["--mode", "gen", "--in", h, "--vt", "both"], "gen%d.ndjson" % i, may_die)
             for i, (h, _) in enumerate(hists)]
     nrand, ops = (240, 120) if q else (6000, 400)
     per = 120 if q else 375
@@ -258,9 +257,9 @@ def run(ctx):
     ctx.extra["exhaustive_scope"] = (
         "every history of Mem.tla with <= 2 operations out of store(offset 0..5, 1..4 bytes) / set_permissions(3 ranges) / "
         "clone / new%s, both endiannesses, with and without backing, each followed by all loads of 8/16/32/64 bits at "
-        "offsets 0..8, permissions at offsets 0..6 and eq of all pairs; replayed for V = il::Constant %s il::Expression "
+        "offsets 0..8, permissions at offsets 0..6 and eq of all pairs; replayed for V = il::Constant and il::Expression "
         "with the window across a page boundary at 1024 / 2^32 / 2^63 (rotating)"
-        % ("" if q else "; and every history of <= 3 stores / clones", "or (alternating)" if q else "and"))
+        % ("" if q else "; and every history of <= 3 stores / clones"))
     ctx.extra["generated_histories"] = sum(n for _, n in hists)
     ctx.extra["random_sessions"] = nrand
     ctx.extra["random_max_ops"] = ops
